@@ -150,6 +150,27 @@ def run_scenarios(scns, timeout=900):
         shutil.rmtree(d, ignore_errors=True)
 
 
+def run_go_test(pkg, driver_file, test, env, timeout=600):
+    """run another overlay-injected replay test (driver_file under /verif/replay, injected into /repo/<pkg>); returns (ok, output)"""
+    os.makedirs(SCRATCH, exist_ok=True)
+    d = tempfile.mkdtemp(dir=SCRATCH)
+    try:
+        ov = os.path.join(d, 'overlay.json')
+        with open(ov, 'w') as f:
+            json.dump({'Replace': {os.path.join(REPO, pkg, driver_file): os.path.join(VERIF, 'replay', driver_file)}}, f)
+        e = dict(GOENV_REPLAY, **{k: v.replace('$DIR', d) for k, v in env.items()})
+        r = subprocess.run(['go', 'test', '-vet=off', '-count=1', '-overlay', ov, '-run', '^%s$' % test, './' + pkg],
+                           cwd=REPO, env=e, capture_output=True, text=True, timeout=timeout)
+        outs = {}
+        for k, v in env.items():
+            pth = v.replace('$DIR', d)
+            if '$DIR' in v and os.path.exists(pth):
+                outs[k] = open(pth).read()
+        return r.returncode == 0, (r.stdout + r.stderr)[-2000:], outs
+    finally:
+        shutil.rmtree(d, ignore_errors=True)
+
+
 def save_scenario(prop, name, scn, extra=None):
     os.makedirs(os.path.join(VERIF, 'cex'), exist_ok=True)
     p = os.path.join(VERIF, 'cex', '%s-%s.json' % (prop, name.replace('/', '_').replace(' ', '_').replace('[', '_').replace(']', '')))
